@@ -74,7 +74,9 @@ Invalidate(task, st) ==
   ELSE [st EXCEPT !.ck = [st.ck EXCEPT ![Key(task)] = None]]
 
 Body(mode) ==
-  CASE mode \in {"fail1", "failpre"} -> [ran |-> <<1>>, exit |-> 201, how |-> "fail"]   \* failpre: a nested task call fails on a precondition
+  CASE mode \in {"fail1", "failpre", "cancelsib"} -> [ran |-> <<1>>, exit |-> 201, how |-> "fail"]
+       \* failpre: a nested task call fails on a precondition; cancelsib: the task runs as a dependency next
+       \* to a sibling that fails while the task's second command is still running (cancellation)
     [] mode \in {"fail2"} -> [ran |-> <<1, 2>>, exit |-> 201, how |-> "fail"]
     [] mode \in {"kill1"} -> [ran |-> <<1>>, exit |-> 137, how |-> "kill"]
     [] mode \in {"kill2"} -> [ran |-> <<1, 2>>, exit |-> 137, how |-> "kill"]
@@ -103,7 +105,7 @@ Predict(mode) ==
          out(b.ran, b.exit, AfterSuccess(task, st))
     [] OTHER ->  \* run, other, fail*, kill*, prompt
          LET c == UpToDate(task, TRUE) st0 == [ck |-> c.ck, mk |-> c.mk] IN
-         IF c.up THEN out(<<>>, 0, st0)
+         IF c.up THEN out(<<>>, IF mode = "cancelsib" THEN 201 ELSE 0, st0)
          ELSE IF mode = "prompt"
          THEN out(<<>>, 205, IF "PromptKeeps" \in KF THEN st0 ELSE AfterFailure(task, st0))
          ELSE LET b == Body(mode) st == Invalidate(task, st0) IN
@@ -111,7 +113,7 @@ Predict(mode) ==
                 [] b.how = "fail" -> out(b.ran, b.exit, AfterFailure(task, st))
                 [] b.how = "kill" -> out(b.ran, b.exit, st)
 
-Modes == {"run", "other", "fail1", "fail2", "failpre", "kill1", "kill2", "prompt", "force", "dry", "status", "list", "listjson", "summary", "drydir"}
+Modes == {"run", "other", "fail1", "fail2", "failpre", "cancelsib", "kill1", "kill2", "prompt", "force", "dry", "status", "list", "listjson", "summary", "drydir"}
 
 \* an invocation as the model sees it: the observation is the prediction, read-only modes change nothing
 Invoke(mode) ==
